@@ -9,7 +9,7 @@ hooks = subprocess.run(['git', '-C', '/repo', 'log', '--format=%H %s'], capture_
 hook_commits = [l.split()[0] for l in hooks if l.split(' ', 1)[1].startswith('verif hooks:')]
 m = {
  "version": 1,
- "setup_cmd": "sim/build.sh plain >/dev/null && sim/build.sh asan >/dev/null && sim/build.sh long >/dev/null",
+ "setup_cmd": "sim/build.sh plain >/dev/null && sim/build.sh asan >/dev/null && sim/build.sh long >/dev/null && sim/build.sh vblas >/dev/null",
  "hooks": {
   "guard": "SLU_MT_VERIF",
   "enable": "sim/build.sh compiles /repo/SRC/*.c (except sp_ienv.c) and /repo/CBLAS/*.c from the working tree with -DSLU_MT_VERIF -D__PTHREAD -DAdd_ and links them with the simulator using -Wl,--wrap=pthread_*,malloc,calloc,realloc,free,exit",
